@@ -52,6 +52,12 @@ def gen_cases(tier, seed):
         yield {"id": "memtape/%d" % k, "kind": "owntape", "files": specs}
     for fill in (0x00, 0xFF):
         yield {"id": "bigcas/%02X" % fill, "kind": "bigcas", "fill": fill}
+    # "whatever its size or content": file DATA that, at the offsets a disk parser looks at, spells a directory entry and an
+    # allocation-table chain (a cassette that holds a picture of a disk)
+    yield {"id": "bigcas/mimic-disk", "kind": "bigcas", "fill": 0, "mimic": True}
+    # ... and the other way round: a disk whose first granules hold a file that is itself a complete cassette image
+    for order in ("ascending", "default"):
+        yield {"id": "dsk-holds-tape/" + order, "kind": "dsktape", "order": order}
     yield {"id": "cas-empty-then-append", "kind": "cas-empty"}
 
 
@@ -191,6 +197,37 @@ def run_history(case, ctx):
         shutil.rmtree(d, ignore_errors=True)
 
 
+def plant_disk_picture(specs, image):
+    """put a directory entry (HIDDEN.BIN, ASCII, first granule 0, 5 bytes) at the first directory slot and a last-granule
+    marker into allocation-table entry 0, by changing file DATA only; None if one of those offsets is not inside a payload"""
+    want = {RD.FAT: 0xC1}
+    for i, v in enumerate(b"HIDDEN  BIN" + bytes([0x00, 0xFF, 0x00, 0x00, 0x05])):
+        want[RD.DIR + i] = v
+    where = {}
+    p = 0
+    for k, s_ in enumerate(specs):
+        n = len(s_["data"]) // 2
+        p += 128 + 128 + 21 + 128 + 128
+        d = 0
+        while d < n:
+            ln = min(255, n - d)
+            p += 4
+            for o in want:
+                if p <= o < p + ln:
+                    where[o] = (k, d + o - p)
+            p += ln + 2
+            d += ln
+        p += 6
+    if len(where) != len(want) or p != len(image):
+        return None
+    out = [dict(s_) for s_ in specs]
+    for o, (k, d) in where.items():
+        data = bytearray(bytes.fromhex(out[k]["data"]))
+        data[d] = want[o]
+        out[k]["data"] = bytes(data).hex()
+    return out
+
+
 def run_bigcas(case, ctx):
     """a cassette image written by the tool, >= 161280 bytes, whose bytes at the FAT/directory offsets are $00/$FF"""
     from cocoasm.virtualfiles.cassette import CassetteFile
@@ -206,6 +243,16 @@ def run_bigcas(case, ctx):
             c.add_files([G.to_coco(s) for s in specs])
             b = bytes(c.get_buffer())
             if len(b) >= RD.IMAGE and all(b[RD.DIR + 32 * k] in (0, 0xFF) for k in range(72)):
+                if case.get("mimic"):
+                    planted = plant_disk_picture(specs, b)
+                    if planted is None:
+                        continue
+                    specs = planted
+                    c = CassetteFile()
+                    c.add_files([G.to_coco(s) for s in specs])
+                    b = bytes(c.get_buffer())
+                    if b[RD.DIR:RD.DIR + 11] != b"HIDDEN  BIN" or b[RD.FAT] != 0xC1:
+                        continue
                 found = (specs, b)
                 break
             if shift > 40 and fill == 0xFF:
@@ -216,7 +263,7 @@ def run_bigcas(case, ctx):
             b = b
         else:
             specs, b = found
-            ctx.cell("bigcas/aligned-%02X" % fill)
+            ctx.cell("bigcas/aligned-%02X" % fill + ("-mimic-disk" if case.get("mimic") else ""))
         path = os.path.join(d, "img.cas")
         open(path, "wb").write(b)
         case2 = dict(case, medium="cas")
@@ -236,6 +283,38 @@ def run_bigcas(case, ctx):
         if ok:
             ctx.nontriv(case["id"])
             ctx.cell("bigcas/reopened>=161280")
+    finally:
+        shutil.rmtree(d, ignore_errors=True)
+
+
+def run_dsktape(case, ctx):
+    from cocoasm.virtualfiles.disk import DiskFile
+    d = tempfile.mkdtemp(prefix="t-", dir=ctx.tmp)
+    try:
+        r = rng(ctx.seed, "C09", case["id"])
+        tape = RT.generate([dict(name=b"INNER   ", ftype=2, dtype=0, load=0x2000, exec=0x2000, data=bytes(range(200)))], r)
+        specs = [{"name": "TAPEIMG", "ext": "DAT", "type": 1, "dtype": 0xFF, "load": 0, "exec": 0, "data": tape.hex(), "kind": "other"},
+                 {"name": "PROG", "ext": "BIN", "type": 2, "dtype": 0, "load": 0x3000, "exec": 0x3000, "data": bytes([0x86, 1, 0x39]).hex(), "kind": "ml"}]
+        mediamon.set_form("dsk-holds-tape")
+        disk = DiskFile(granule_fill_order=list(range(68))) if case["order"] == "ascending" else DiskFile()
+        disk.add_files([G.to_coco(s_) for s_ in specs])
+        path = os.path.join(d, "img.dsk")
+        open(path, "wb").write(bytes(disk.get_buffer()))
+        ok = check_host(ctx, dict(case, medium="dsk"), path, "dsk", specs, 0, "dsk-holds-tape")
+        if ok:
+            open(os.path.join(d, "p.asm"), "w").write(ASM_T % ("ADDED", 0x1000, 7))
+            res = fsmon.run_cli("assembler.py", ["p.asm", "--to_dsk", "img.dsk", "--append"], d)
+            specs2 = specs + [{"name": "ADDED", "ext": "BIN", "type": 2, "dtype": 0, "load": 0x1000, "exec": 0x1000, "data": bytes([0x86, 7, 0x39]).hex()}]
+            if "Unable to save" in res.out:
+                ctx.violation("host-history", "history.dsk-holds-tape", "APPEND-REFUSED:" + ("not-of-type" if "not of type" in res.out else "other"),
+                              {"show": "assembler.py --to_dsk --append onto a disk that holds a tape image: %s" % res.out.strip()[-80:]}, {"medium": "dsk"})
+                ok = False
+            else:
+                ok = check_host(ctx, dict(case, medium="dsk"), path, "dsk", specs2, 1, "dsk-holds-tape-append")
+        ctx.outcome("dsktape-ok" if ok else "dsktape-bad")
+        if ok:
+            ctx.nontriv(case["id"])
+            ctx.cell("dsk-holds-tape/" + case["order"])
     finally:
         shutil.rmtree(d, ignore_errors=True)
 
@@ -284,6 +363,8 @@ def run_case(case, ctx):
         return run_history(case, ctx)
     if case["kind"] == "bigcas":
         return run_bigcas(case, ctx)
+    if case["kind"] == "dsktape":
+        return run_dsktape(case, ctx)
     return run_cas_empty(case, ctx)
 
 
